@@ -147,3 +147,34 @@ Proof.
       destruct fp'; [congruence|]. exact R. }
     unfold mk_const. rewrite Hreal. unfold mk_const_sort. rewrite Hq. now rewrite fr_of_qd_str_proof.
 Qed.
+
+(* ---- Int constants after commit d04fdc4: the symbol name is the canonical spelling ---------------------- *)
+Lemma str_eqb_eq a b : str_eqb a b = true <-> a = b.
+Proof.
+  revert b. induction a as [|x a IH]; intros [|y b]; cbn; try (split; [discriminate | congruence]); [tauto|].
+  rewrite andb_true_iff, N.eqb_eq, IH. split.
+  - intros [Hc ->]. f_equal. now apply code_inj.
+  - intros E. injection E as -> ->. auto.
+Qed.
+
+Lemma fr_of_string_canonical s q : fr_of_string s = FRVal q -> Qred q = q.
+Proof.
+  unfold fr_of_string. destruct (mpq_set_str (0%Z, 1%Z) s fastrational_default_base) as [ok [n d]].
+  destruct ok; [|discriminate]. unfold mpq_canon. destruct d; try discriminate; intros H; injection H as <-;
+    [change (Qred (Qred (n # p)) = Qred (n # p)) | change (Qred (Qred (- n # p)) = Qred (- n # p))];
+    apply Qred_complete, Qred_correct.
+Qed.
+
+Theorem int_const_identity_fixed_proof uf a b p q : fastrational_default_base = 10 ->
+  is_int_string a = true -> is_int_string b = true -> fr_of_string a = FRVal p -> fr_of_string b = FRVal q ->
+  mk_eq_int_consts_v true uf a b = Some (Qeq_bool p q).
+Proof.
+  intros Hb Ha Hbb Hp Hq. unfold mk_eq_int_consts_v, int_const_name_v. rewrite Ha, Hbb, Hp, Hq. cbn [andb opt_str_eqb].
+  pose proof (fr_of_string_canonical _ _ Hp) as Cp. pose proof (fr_of_string_canonical _ _ Hq) as Cq.
+  destruct (str_eqb (qd_str p) (qd_str q)) eqn:E.
+  - apply str_eqb_eq in E. pose proof (fr_of_qd_str_proof p Cp Hb) as Rp. rewrite E, (fr_of_qd_str_proof q Cq Hb) in Rp.
+    injection Rp as ->. f_equal. symmetry. apply Qeq_bool_iff. reflexivity.
+  - destruct uf; [|reflexivity]. f_equal. symmetry. apply not_true_is_false. intros H. apply Qeq_bool_iff in H.
+    apply Qred_complete in H. rewrite Cp, Cq in H. subst q. assert (str_eqb (qd_str p) (qd_str p) = true) by now apply str_eqb_eq.
+    congruence.
+Qed.
